@@ -333,6 +333,48 @@ func init() {
 			rest := &SliceV{Elem: el, Len: restLen, Cap: restLen, Alts: []SliceAlt{{Cond: c.True(), Loc: &Loc{Obj: o}, Off: bv64(c, 0)}}}
 			return &TupleV{Vs: []Value{rest, errv}}
 		},
+		"errors.As": func(e *Exec, st *State, f *ssa.Function, args []Value, pos token.Pos) Value {
+			// true iff some error in err's chain has the target's element type
+			errv, ok := args[0].(*IfaceV)
+			tv, ok2 := args[1].(*IfaceV)
+			if !ok || !ok2 || len(tv.Alts) != 1 || tv.Alts[0].Typ == nil {
+				e.refuse("errors.As with a target of unknown type")
+			}
+			pt, isP := tv.Alts[0].Typ.Underlying().(*types.Pointer)
+			if !isP {
+				e.refuse("errors.As target is not a pointer")
+			}
+			kind := e.typeID(pt.Elem())
+			known := false
+			for _, k := range e.errKinds() {
+				if k == kind {
+					known = true
+				}
+			}
+			var r *smt.Term
+			if known {
+				r = e.errChainHas(errv, kind)
+			} else {
+				// a type that is not tracked: only the head of the chain is known
+				r = e.C.Fresh("errors_as", smt.Bool)
+			}
+			// the target is written when the result is true
+			e.havocReach(st, tv.Alts[0].Val, "errors_as_target", 0, map[*Object]bool{}, pos)
+			return Scalar{T: r, Typ: boolTyp}
+		},
+		"errors.Unwrap": func(e *Exec, st *State, f *ssa.Function, args []Value, pos token.Pos) Value {
+			c := e.C
+			errv := args[0].(*IfaceV)
+			res := e.fresh(errorType, "unwrapped").(*IfaceV)
+			id := e.ifaceIdent(res)
+			tag := e.ifaceTag(res)
+			for _, k := range e.errKinds() {
+				kt := c.BVC(uint64(k), 64)
+				has := c.Or(c.Eq(tag, kt), e.errHas(id, k))
+				e.addAxioms(c.Implies(c.And(c.Not(e.ifaceNil(res)), has), e.errChainHas(errv, k)))
+			}
+			return res
+		},
 		"reflect.DeepEqual": func(e *Exec, st *State, f *ssa.Function, args []Value, pos token.Pos) Value {
 			// unconstrained boolean (sound over-approximation; the verdict never relies on it)
 			return Scalar{T: e.C.Fresh("deepequal", smt.Bool), Typ: boolTyp}
